@@ -321,7 +321,7 @@ def post_load(variant, ops, fail, load):
             raise RuntimeError("phreeqc.dat does not load")
         oks, allrc = [], []
         for name in ops:
-            rcs, ok = play(d, A.S[name])
+            rcs, ok = play(d, A.S[name] if name in A.S else A.DBX[name])
             oks.append(ok)
             allrc.append(rcs)
         fail_failed = None
@@ -510,7 +510,7 @@ HEAVY = ["t80", "kin", "trs", "trm", "so2", "knobs", "prreset", "defs", "redef",
 
 
 def order_key(c):
-    return (len(c["hist"]) + (1 if c["fail"] else 0), len(c["hist"]), [S_ALL.index(o) for o in c["hist"]], c["fail"] or "", c["load"])
+    return (len(c["hist"]) + (1 if c["fail"] else 0), len(c["hist"]), [(S_ALL + list(A.DBX)).index(o) for o in c["hist"]], c["fail"] or "", c["load"])
 
 
 def histories(ops, k):
@@ -541,10 +541,14 @@ def bounds(tier):
             ("depth<=1: (op)? (failing op)? x LoadDatabase(phreeqc.dat | pitzer.dat); (op)? x LoadDatabaseString(phreeqc.dat)",
              sorted(mk(d01, fails, file_loads) + mk(d01, [None], ["phreeqc-str"]), key=order_key)),
             ("depth 2: op op x LoadDatabase(phreeqc.dat)", mk(histories(S_ALL, 2), [None], ["phreeqc"])),
+            ("every other shipped database as history: LoadDatabase(X) (spec)? x LoadDatabase(phreeqc.dat | pitzer.dat)",
+             mk([[x] for x in A.DBX] + [[x, "spec"] for x in A.DBX], [None], file_loads)),
         ]
     return [
         ("depth<=1: (op)? (failing op)? x 3 loads", mk(d01, fails, loads)),
         ("depth 2: op op x 3 loads", mk(histories(S_ALL, 2), [None], loads)),
+        ("every other shipped database as history: LoadDatabase(X) (op)? (failing op)? x 3 loads",
+         mk([[x] for x in A.DBX] + [[x, o] for x in A.DBX for o in ("spec", "t80", "kin", "defs", "knobs")], fails, loads)),
         ("sanitizer build, depth<=1: (op)? (failing op)? x 3 loads", mk(d01, fails, loads, "san")),
         ("depth 2 + failing op: op op (failing op) x LoadDatabase(phreeqc.dat)", mk(histories(S_ALL, 2), F_ALL, ["phreeqc"])),
         ("depth 3 over the %d residue-heavy ops: op op op (f_basic | f_trans)? x LoadDatabase(phreeqc.dat | pitzer.dat)" % len(HEAVY),
